@@ -1,0 +1,292 @@
+//! C13 facade: `LoadBalancer` / `OutgoingMessageOrchestrator` driven from outside the crate.
+//!
+//! The orchestrator only ever talks to its peers through `ISocketConnection`, which is
+//! crate-private, so the scripted connection lives here.  A `VWorld` owns one real
+//! `OutgoingMessageOrchestrator` plus a script: for the t-th send call made on any peer (t counts
+//! `try_send_multipart_owned_sync` and `send_multipart_owned` calls alike) the script says, per
+//! peer, whether the call is accepted / finds the pipe full / fails, and which membership changes
+//! (add_connection / remove_connection issued by "other tasks") land while that call is in
+//! flight.  The orchestrator holds no lock across a send call, so performing those operations
+//! from inside the scripted connection is exactly an interleaving that other tasks can produce.
+//! Every send call is logged; nothing here changes what the real code does.
+use crate::error::ZmqError;
+use crate::message::{FrameBatch, Msg};
+use crate::socket::connection_iface::ISocketConnection;
+use crate::socket::patterns::OutgoingMessageOrchestrator;
+use async_trait::async_trait;
+use std::any::Any;
+use std::fmt;
+use std::future::Future;
+use std::pin::Pin;
+use std::sync::{Arc, Mutex, Weak};
+
+// ---------------------------------------------------------------- schedule hook
+
+pub type VHook = Arc<dyn Fn(&'static str) + Send + Sync>;
+static HOOK: Mutex<Option<VHook>> = Mutex::new(None);
+
+/// Install (or clear) the closure run at every schedule point.
+pub fn set_schedule_hook(h: Option<VHook>) {
+  *HOOK.lock().unwrap() = h;
+}
+
+/// Called from `#[cfg(rzmq_verif)]` lines inside rzmq. A no-op unless a hook is installed.
+pub fn schedule_point(name: &'static str) {
+  let h = HOOK.lock().unwrap().clone();
+  if let Some(h) = h {
+    h(name)
+  }
+}
+
+// ---------------------------------------------------------------- script and log
+
+#[derive(Clone, Copy, Debug, PartialEq, Eq)]
+pub enum VReady {
+  Accept,
+  Full,
+  Closed,
+}
+
+#[derive(Clone, Debug)]
+pub struct VAttempt {
+  pub t: u64,
+  pub peer: u64,
+  pub slow: bool,
+  pub res: VReady,
+  pub msg_id: u64,
+}
+
+#[derive(Clone, Debug)]
+pub enum VMop {
+  Add(u64),
+  Remove(u64),
+  Deactivate,
+}
+
+/// Bit p of `*_acc[t]` / `*_closed[t]`: peer p accepts / fails the t-th send call (closed wins;
+/// neither bit, or t beyond the list: full).
+#[derive(Clone, Debug, Default)]
+pub struct VScript {
+  pub fast_acc: Vec<u64>,
+  pub fast_closed: Vec<u64>,
+  pub slow_acc: Vec<u64>,
+  pub slow_closed: Vec<u64>,
+  pub env: Vec<(u64, Vec<VMop>)>,
+}
+
+fn bit(masks: &[u64], t: u64, p: u64) -> bool {
+  p < 64 && masks.get(t as usize).map(|m| (m >> p) & 1 == 1).unwrap_or(false)
+}
+
+impl VScript {
+  fn answer(&self, slow: bool, t: u64, p: u64) -> VReady {
+    let (acc, closed) = if slow { (&self.slow_acc, &self.slow_closed) } else { (&self.fast_acc, &self.fast_closed) };
+    if bit(closed, t, p) {
+      VReady::Closed
+    } else if bit(acc, t, p) {
+      VReady::Accept
+    } else {
+      VReady::Full
+    }
+  }
+  fn env_at(&self, t: u64) -> Vec<VMop> {
+    self.env.iter().find(|(k, _)| *k == t).map(|(_, v)| v.clone()).unwrap_or_default()
+  }
+}
+
+struct WorldState {
+  t: u64,
+  script: VScript,
+  log: Vec<VAttempt>,
+}
+
+struct WorldInner {
+  orch: OutgoingMessageOrchestrator,
+  st: Mutex<WorldState>,
+}
+
+fn uri_name(u: u64) -> String {
+  format!("u{u}")
+}
+fn uri_num(s: &str) -> u64 {
+  s[1..].parse().unwrap()
+}
+
+pub fn id_batch(id: u64) -> FrameBatch {
+  let mut fb = FrameBatch::new();
+  fb.push(Msg::from_vec(id.to_le_bytes().to_vec()));
+  fb
+}
+pub fn batch_id(fb: &FrameBatch) -> Option<u64> {
+  let m = fb.first()?;
+  let d = m.data()?;
+  if d.len() != 8 {
+    return None;
+  }
+  let mut b = [0u8; 8];
+  b.copy_from_slice(d);
+  Some(u64::from_le_bytes(b))
+}
+
+fn apply_ops(w: &Arc<WorldInner>, ops: &[VMop]) {
+  for op in ops {
+    match op {
+      VMop::Add(u) => w.orch.add_connection(uri_name(*u), Arc::new(VConn { uri: *u, world: Arc::downgrade(w) })),
+      VMop::Remove(u) => w.orch.remove_connection(&uri_name(*u)),
+      VMop::Deactivate => w.orch.deactivate(),
+    }
+  }
+}
+
+// ---------------------------------------------------------------- scripted connection
+
+struct VConn {
+  uri: u64,
+  world: Weak<WorldInner>,
+}
+
+impl fmt::Debug for VConn {
+  fn fmt(&self, f: &mut fmt::Formatter<'_>) -> fmt::Result {
+    write!(f, "VConn(u{})", self.uri)
+  }
+}
+
+impl VConn {
+  fn attempt(&self, slow: bool, msgs: &FrameBatch) -> VReady {
+    let Some(w) = self.world.upgrade() else {
+      return VReady::Closed;
+    };
+    let (res, ops) = {
+      let mut st = w.st.lock().unwrap();
+      let t = st.t;
+      st.t += 1;
+      let res = st.script.answer(slow, t, self.uri);
+      st.log.push(VAttempt { t, peer: self.uri, slow, res, msg_id: batch_id(msgs).unwrap_or(u64::MAX) });
+      (res, st.script.env_at(t))
+    };
+    apply_ops(&w, &ops);
+    res
+  }
+}
+
+#[async_trait]
+impl ISocketConnection for VConn {
+  async fn send_multipart(&self, msgs: FrameBatch) -> Result<(), ZmqError> {
+    match self.attempt(true, &msgs) {
+      VReady::Accept => Ok(()),
+      VReady::Full => Err(ZmqError::ResourceLimitReached),
+      VReady::Closed => Err(ZmqError::Timeout),
+    }
+  }
+
+  /// Same contract as the real connections: ownership comes back only on the immediate
+  /// "full" answer; a timed-out / closed blocking send has consumed the batch.
+  async fn send_multipart_owned(&self, msgs: FrameBatch) -> Result<(), (FrameBatch, ZmqError)> {
+    match self.attempt(true, &msgs) {
+      VReady::Accept => Ok(()),
+      VReady::Full => Err((msgs, ZmqError::ResourceLimitReached)),
+      VReady::Closed => Err((FrameBatch::new(), ZmqError::Timeout)),
+    }
+  }
+
+  fn try_send_multipart_owned_sync(&self, msgs: FrameBatch) -> Result<(), (FrameBatch, ZmqError)> {
+    match self.attempt(false, &msgs) {
+      VReady::Accept => Ok(()),
+      VReady::Full => Err((msgs, ZmqError::ResourceLimitReached)),
+      VReady::Closed => Err((msgs, ZmqError::ConnectionClosed)),
+    }
+  }
+
+  async fn close_connection(&self) -> Result<(), ZmqError> {
+    Ok(())
+  }
+
+  fn as_any(&self) -> &dyn Any {
+    self
+  }
+}
+
+// ---------------------------------------------------------------- wrapper
+
+/// Result of try_route_sync / route_message as the caller sees it.
+#[derive(Clone, Debug)]
+pub struct VRouteResult {
+  pub ok: bool,
+  /// 0 = ResourceLimitReached, 1 = ConnectionClosed, 2 = Timeout, 3 = anything else (only if !ok)
+  pub err_kind: u64,
+  /// id of the batch handed back with the error; None if an empty batch came back
+  pub returned_id: Option<u64>,
+}
+
+fn convert(r: Result<(), (FrameBatch, ZmqError)>) -> VRouteResult {
+  match r {
+    Ok(()) => VRouteResult { ok: true, err_kind: 0, returned_id: None },
+    Err((fb, e)) => VRouteResult {
+      ok: false,
+      err_kind: match e {
+        ZmqError::ResourceLimitReached => 0,
+        ZmqError::ConnectionClosed => 1,
+        ZmqError::Timeout => 2,
+        _ => 3,
+      },
+      returned_id: batch_id(&fb),
+    },
+  }
+}
+
+#[derive(Clone)]
+pub struct VWorld(Arc<WorldInner>);
+
+impl VWorld {
+  pub fn new(script: VScript) -> Self {
+    VWorld(Arc::new(WorldInner {
+      orch: OutgoingMessageOrchestrator::new(),
+      st: Mutex::new(WorldState { t: 0, script, log: Vec::new() }),
+    }))
+  }
+  pub fn add(&self, u: u64) {
+    apply_ops(&self.0, &[VMop::Add(u)]);
+  }
+  pub fn remove(&self, u: u64) {
+    apply_ops(&self.0, &[VMop::Remove(u)]);
+  }
+  pub fn deactivate(&self) {
+    apply_ops(&self.0, &[VMop::Deactivate]);
+  }
+  pub fn apply(&self, ops: &[VMop]) {
+    apply_ops(&self.0, ops);
+  }
+  /// LoadBalancer::get_next_connection
+  pub fn next(&self) -> Option<u64> {
+    self.0.orch.verif_balancer().get_next_connection().map(|p| uri_num(&p.uri))
+  }
+  /// (peers in list order, next_idx)
+  pub fn snapshot(&self) -> (Vec<u64>, usize) {
+    let (uris, idx) = self.0.orch.verif_balancer().verif_snapshot();
+    (uris.iter().map(|s| uri_num(s)).collect(), idx)
+  }
+  pub fn connection_count(&self) -> usize {
+    self.0.orch.verif_balancer().connection_count()
+  }
+  pub fn has_connections(&self) -> bool {
+    self.0.orch.has_connections()
+  }
+  /// send calls logged since the last call of this function
+  pub fn take_log(&self) -> Vec<VAttempt> {
+    std::mem::take(&mut self.0.st.lock().unwrap().log)
+  }
+  /// OutgoingMessageOrchestrator::try_route_sync with a one-frame batch carrying `id`
+  pub fn try_route(&self, id: u64) -> VRouteResult {
+    convert(self.0.orch.try_route_sync(id_batch(id)))
+  }
+  /// OutgoingMessageOrchestrator::route_message
+  pub fn route(&self, id: u64, wait_for_peer: bool) -> Pin<Box<dyn Future<Output = VRouteResult> + Send>> {
+    let w = self.0.clone();
+    Box::pin(async move { convert(w.orch.route_message(id_batch(id), wait_for_peer).await) })
+  }
+  /// OutgoingMessageOrchestrator::wait_for_connection (= LoadBalancer::wait_for_connection)
+  pub fn wait_for_connection(&self) -> Pin<Box<dyn Future<Output = bool> + Send>> {
+    let w = self.0.clone();
+    Box::pin(async move { w.orch.wait_for_connection().await.is_ok() })
+  }
+}
